@@ -2479,6 +2479,10 @@ protected:
      * @param opPos The current position in the xpath operation map array
      * @param scoreHolder a reference to an eMatchScore to receive
      * the result.
+     * @param theAncestor On input, the ancestor that the next step which
+     * matches any ancestor (a step followed by '//') has already tried,
+     * or 0 to start with the nearest one.  On output, the ancestor that
+     * step matched, or 0 if there is no such step, or no more ancestors.
      * @return the last matched context node
      */
     XalanNode*
@@ -2486,7 +2490,8 @@ protected:
             XPathExecutionContext&  executionContext,
             XalanNode*              context, 
             OpCodeMapPositionType   opPos,
-            eMatchScore&            scoreHolder) const;
+            eMatchScore&            scoreHolder,
+            XalanNode*&             theAncestor) const;
 
     OpCodeMapPositionType
     findNodeSet(
